@@ -16,7 +16,7 @@ type Clock struct {
 	t  time.Time
 }
 
-func NewClock() *Clock                { return &Clock{t: Base.Add(1000 * time.Second)} }
+func NewClock() *Clock               { return &Clock{t: Base.Add(1000 * time.Second)} }
 func (c *Clock) Now() time.Time      { c.mu.Lock(); defer c.mu.Unlock(); return c.t }
 func (c *Clock) Set(t time.Time)     { c.mu.Lock(); c.t = t; c.mu.Unlock() }
 func (c *Clock) Add(d time.Duration) { c.mu.Lock(); c.t = c.t.Add(d); c.mu.Unlock() }
